@@ -12,13 +12,17 @@
    behind can still win (C12_mj_tiebreak_documented_refuted; replayed on votelib).
    Justified representation of the PAV committee for weighted ballots: C12_pav_jr (Aziz et al. 2017 swap
    argument; the sharper bound weight * (n+1) <= total is C12_pav_jr_bound).
-   STAR and allocated score are decided per explored case against independent references (evidence: partial). *)
+   STAR (Model/Star.v, default configuration), one seat, two untied finalists: the winner is one of the two top
+   scorers and strictly more ballot weight places it above the other finalist (C12_star_runoff); other run-off
+   sizes are modelled and compared with the code only.
+   Allocated score is decided per explored case against an independent reference (evidence: partial). *)
 From Coq Require Import ZArith QArith List.
 From VL Require Import Prelude.PyDict Model.GetNBest Model.Convert Model.Cardinal Proofs.Cardinal_proofs
-     Proofs.MJ_proofs Proofs.JR_proofs.
+     Proofs.MJ_proofs Proofs.JR_proofs Model.Condorcet Model.Star Proofs.Star_proofs.
 From Coq Require Import Permutation.
 Import ListNotations.
 Close Scope Q_scope.
+Close Scope Z_scope.
 
 Theorem C12_combinations_complete : forall l n s, subseq s l -> length s = n -> In s (combos l n).
 Proof. exact combos_complete. Qed.
@@ -186,6 +190,39 @@ Proof.
   intros bw [<-|[<-|[<-|[]]]]; (split; [discriminate|repeat constructor; simpl; intuition discriminate]).
 Qed.
 
+(* ---- STAR (default configuration), one seat.  [a] and [b] are the run-off: the two highest score sums, not tied
+   with the third.  [support votes x y] is the ballot weight that scores x and scores y lower or not at all.
+   [order] is the iteration order of the candidate set inside Schulze.widest_paths (any order of the finalists). *)
+Theorem C12_star_support : forall votes a b, a <> b ->
+  pget0 (star_pairwise votes [a; b]) (a, b) = support votes a b /\
+  pget0 (star_pairwise votes [a; b]) (b, a) = support votes b a.
+Proof. exact pairwise_support. Qed.
+
+Theorem C12_star_runoff : forall votes order agg a b c,
+  score_to_simple star_cfg votes = inl agg ->
+  get_n_best Qle_bool agg 2 = [Cand a; Cand b] ->
+  (forall x, In x order -> x = a \/ x = b) ->
+  star votes order 1 = inl [Cand c] ->
+  (c = a /\ (support votes b a < support votes a b)%Z) \/ (c = b /\ (support votes a b < support votes b a)%Z).
+Proof. exact star_runoff. Qed.
+
+(* the same for the order the wire wrapper uses (first appearance in the pairwise dictionary) *)
+Theorem C12_star_auto_runoff : forall votes agg a b c,
+  score_to_simple star_cfg votes = inl agg ->
+  get_n_best Qle_bool agg 2 = [Cand a; Cand b] ->
+  star_auto votes 1 = inl [Cand c] ->
+  (c = a /\ (support votes b a < support votes a b)%Z) \/ (c = b /\ (support votes a b < support votes b a)%Z).
+Proof. exact star_auto_runoff. Qed.
+
+(* a profile on which the top scorer (1: 9 points against 8) loses the run-off to 2 (preferred by 3 voters to 2) *)
+Example C12_star_example :
+  let votes : sprofile := [([(1%positive, 5#1); (2%positive, 0#1); (3%positive, 0#1)], 1%Z);
+                           ([(1%positive, 4#1); (2%positive, 2#1)], 1%Z);
+                           ([(1%positive, 0#1); (2%positive, 2#1); (3%positive, 1#1)], 3%Z)]%Q in
+  (exists agg, score_to_simple star_cfg votes = inl agg /\ get_n_best Qle_bool agg 2 = [Cand 1%positive; Cand 2%positive]) /\
+  star_auto votes 1 = inl [Cand 2%positive].
+Proof. split; [eexists; split; vm_compute; reflexivity|vm_compute; reflexivity]. Qed.
+
 Print Assumptions C12_combinations_complete.
 Print Assumptions C12_combinations_sound.
 Print Assumptions C12_pav_optimal.
@@ -202,3 +239,6 @@ Print Assumptions C12_pav_jr_bound.
 Print Assumptions C12_pav_jr.
 Print Assumptions C12_pav_committee.
 Print Assumptions C12_pav_jr_answer.
+Print Assumptions C12_star_support.
+Print Assumptions C12_star_runoff.
+Print Assumptions C12_star_auto_runoff.
